@@ -27,9 +27,19 @@ from contracts.util import fld, fld0
 
 DM = "pandera.api.dataframe.model:DataFrameModel"
 
-# Config option -> DataFrameSchema keyword (documentation of BaseConfig: each option "#: ..." names the schema-wide option)
-SCHEMA_OPTIONS = ("dtype", "coerce", "strict", "name", "ordered", "unique", "title", "description", "unique_column_names",
-                  "add_missing_columns", "drop_invalid_rows")
+# The schema-wide options: every public Config option that the object API offers under the same name, i.e. that is a parameter
+# of DataFrameSchema.__init__ (taken from the two public APIs, not from to_schema's own table).
+def _schema_options():
+    import inspect
+
+    from pandera.api.dataframe.model_config import BaseConfig
+    from pandera.api.pandas.container import DataFrameSchema
+
+    params = set(inspect.signature(DataFrameSchema.__init__).parameters)
+    return tuple(o for o in vars(BaseConfig) if not o.startswith("_") and o in params)
+
+
+SCHEMA_OPTIONS = _schema_options()
 COMPILED_ATTRS = ("__fields__", "__checks__", "__root_checks__", "__parsers__", "__root_parsers__", "__schema__")
 COLLABORATORS = ("_collect_fields", "_collect_check_infos", "_collect_parser_infos", "_extract_checks", "_extract_df_checks",
                  "_extract_parsers", "_extract_df_parsers", "build_schema_")
@@ -177,13 +187,10 @@ class ToSchema(Contract):
         if cfg is None:
             out["no_config_no_options"] = bargs == () and bkw == {}
         else:
-            out["exactly_the_schema_options_are_forwarded"] = bargs == () and set(bkw) == set(SCHEMA_OPTIONS)
-            ok = True
+            out["only_schema_options_are_forwarded"] = bargs == () and set(bkw) <= set(SCHEMA_OPTIONS)
             for o in SCHEMA_OPTIONS:
-                if o == "description":
-                    continue
-                ok = ok and (bkw.get(o) is fld0(cfg, o))
-            out["each_option_has_the_config_value"] = ok
+                if o != "description":
+                    out[f"option_{o}_has_the_config_value"] = o in bkw and bkw.get(o) is fld0(cfg, o)
             d = fld0(cfg, "description")
             if d is None:
                 out["description_defaults_to_the_docstring"] = bkw.get("description") is cls.attrs0["__doc__"]
